@@ -206,6 +206,7 @@ def check(prop, tier, *, base_seed=None, budget_s=None, max_runs=None, workers=N
     known_hits = {}
     violations = []
     harness_errors = []
+    slowest = (0.0, None)
     next_seed = base_seed * 1_000_000
     seeds_done = 0
     with concurrent.futures.ProcessPoolExecutor(max_workers=workers, mp_context=ctx) as pool:
@@ -236,6 +237,8 @@ def check(prop, tier, *, base_seed=None, budget_s=None, max_runs=None, workers=N
                         harness_errors.append(f'seed {r["seed"]}: {r["harness_error"]}')
                         continue
                     results_n += 1
+                    if r.get('wall', 0) > slowest[0]:
+                        slowest = (round(r['wall'], 1), r['seed'])
                     evaluations += r.get('evaluations', 1)
                     if r.get('nontrivial', True):
                         for d in (r.get('digests') or [r.get('digest')]):
@@ -313,6 +316,7 @@ def check(prop, tier, *, base_seed=None, budget_s=None, max_runs=None, workers=N
             'scheduler_steps': steps,
             'faults_fired': dict(fired),
             'probes': dict(probes),
+            'slowest_case': {'wall_s': slowest[0], 'seed': slowest[1]},
             'probes_at_zero': [k for k in getattr(mod, 'PROBES', []) if not probes.get(k) and not fired.get(k)],
             'known_findings_hit': {k: v[1] for k, v in known_hits.items()},
             'components': getattr(mod, 'COMPONENTS', {}),
